@@ -38,6 +38,27 @@ CHECKS = {
             "Termination is decided only up to logical bounds; a watchdog firing is inconclusive. Deep-recursion stack "
             "use is only observable in the process-level stage.",
             "DESIGN.md section 4 C04"),
+    "C05": ("exploration",
+            "offline checker over recorded, timestamped UCI dialogues of the real binary under randomised timing and injected delays (hook H3); hangs decided by a /proc deadlock signature, never by a bare timeout",
+            "Hundreds (thorough: thousands) of conforming command histories per run with inter-command gaps from 0 to 20 ms "
+            "and eight delay configurations holding the windows between 'bestmove printed', 'latch set', 'lock taken' open; "
+            "interleaving classes observed are counted (stop while searching / after the search ended on its own / before "
+            "any go, ucinewgame after a finished search, setoption and isready during search).",
+            "Liveness restated as bounded progress; alive-but-slow is inconclusive. Schedules are sampled and forced, not "
+            "enumerated.",
+            "DESIGN.md section 4 C05"),
+    "C13": ("exploration",
+            "process-level runtime monitor: every advertised spin option (parsed from the binary's own output) at boundaries, neighbours and random interior values, before and between searches, followed by isready and a search judged by refchess",
+            "Quantifies over what the binary advertises; Hash 0 and Hash 1024 are always included; an in-process twin drives "
+            "the table through all sizes.",
+            "SyzygyPath (free text) is outside the property.",
+            "DESIGN.md section 4 C13"),
+    "C17": ("exploration",
+            "differential process-level monitor: 'position ... moves ...' on the real binary vs refchess: FEN dump, reply set (the engine's own long-algebraic output) and bestmove membership",
+            "Thousands of legal games from startpos and from FENs, up to ~600 plies, with counters for castling, en passant "
+            "and each promotion piece.",
+            "En-passant field accepted under any single recording convention; zero-move games must echo the FEN's own field.",
+            "DESIGN.md section 4 C17"),
     "C06": ("exploration",
             "round-trip monitor on live legal positions + grammar-aware/byte-level fuzzing of the reader under catch_unwind in checked and optimised builds, with an independent rank-width oracle",
             "Write->read->compare every field and key on legal positions; canonical text under each en-passant "
